@@ -1966,6 +1966,9 @@ void XMLDateTime::serialize(XSerializeEngine& serEng)
         serEng<<(unsigned long)fEnd;
 
         serEng.writeString(fBuffer, fBufferMaxLen, XSerializeEngine::toWriteBufferLen);
+
+        serEng<<fMilliSecond;
+        serEng<<fHasTime;
     }
     else
     {
@@ -1984,6 +1987,9 @@ void XMLDateTime::serialize(XSerializeEngine& serEng)
 
         XMLSize_t dataLen = 0;
         serEng.readString(fBuffer, fBufferMaxLen, dataLen ,XSerializeEngine::toReadBufferLen);
+
+        serEng>>fMilliSecond;
+        serEng>>fHasTime;
 
     }
 
